@@ -32,6 +32,7 @@ func init() {
 			{Name: "image-zipslip-test-dropped", File: "artifact/image/layerscanning/image/image.go", Old: "		if strings.HasPrefix(cleanedFilePath, \"../\") {\n			continue\n		}\n", New: "", Rule: "D6-image-paths", Site: "fillChainLayersWithFilesFromTar"},
 			{Name: "link-target-fast-path", File: "artifact/image/symlink/symlink.go", Old: "	markerDir := uuid.New().String()\n", New: "	if !strings.HasPrefix(filepath.ToSlash(target), \"../\") && !strings.HasPrefix(filepath.ToSlash(target), \"/../\") {\n		return false\n	}\n	markerDir := uuid.New().String()\n", Rule: "D7-link-targets", Site: "TargetOutsideRoot"},
 		},
+		Neutral: c06Neutral,
 	})
 }
 
